@@ -40,7 +40,7 @@ def octabox(sub=0):
     return dict(bitmap=bitmap, diag=(0, 255, 0, 255), subs=subs)
 
 
-def s_full(version=5, glat_version=3, compress=(), rtl=False, with_collision=True, subboxes=True, glyf=True, extra_attr_glyphs=0):
+def s_full(version=5, glat_version=3, compress=(), rtl=False, with_collision=True, subboxes=True, glyf=True, extra_attr_glyphs=0, dense_attrs=False):
     names = ['notdef', 'space', 'a', 'b', 'c', 'd', 'x', 'y', 'z', 'acute', 'grave', 'pseudo', 'astral', 'lig', 'e', 'f']
     glyphs = []
     for i, n in enumerate(names):
@@ -53,6 +53,9 @@ def s_full(version=5, glat_version=3, compress=(), rtl=False, with_collision=Tru
                 attrs.update({c: 1, c + 1: (-200) & 0xFFFF, c + 2: (-200) & 0xFFFF, c + 3: 200, c + 4: 200, c + 5: 10, c + 6: 5})
         if n == 'space': attrs[GA['brk']] = 10; attrs[GA['jstretch']] = 400; attrs[GA['jshrink']] = 100; attrs[GA['jstep']] = 1; attrs[GA['jweight']] = 1
         if n == 'pseudo': attrs[GA['pseudo']] = G['x']
+        if dense_attrs and n == 'e':          # a glyph that stores a value for EVERY attribute of the font (capacity == numAttrs)
+            for k in range(34): attrs.setdefault(k, 1)
+        if dense_attrs and n == 'd': attrs[33] = 9          # only the last attribute number
         g = dict(adv=adv, attrs=attrs, bbox=(0, 0 if adv else 500, 500, 700))
         if glat_version >= 3: g['octabox'] = octabox(2 if (subboxes and n in ('a', 'acute')) else (1 if subboxes and n == 'grave' else 0))
         glyphs.append(g)
@@ -151,7 +154,7 @@ def write_all(outdir):
     fonts = {'s_min': s_min(), 's_full': s_full(), 's_full_z': s_full(compress=('Silf', 'Glat')), 's_full_v3': s_full(version=3, glat_version=1, with_collision=False),
              's_full_v4': s_full(version=4, glat_version=2, with_collision=False), 's_full_rtl': s_full(rtl=True), 's_full_nosub': s_full(subboxes=False),
              's_full_zs': s_full(compress=('Silf',)), 's_full_zg': s_full(compress=('Glat',)),
-             's_full_noglyf': s_full(glyf=False), 's_full_extra': s_full(extra_attr_glyphs=3)}
+             's_full_noglyf': s_full(glyf=False), 's_full_extra': s_full(extra_attr_glyphs=3), 's_full_dense': s_full(dense_attrs=True)}
     fonts.update(feat_family())
     index = {}
     for name, spec in fonts.items():
